@@ -11,6 +11,7 @@ start/end swap, a status branch, a branch bound or a constant edited in `constra
 The theorems about the parametric rows hold for ALL leaves, constants and real leaf values.
 -/
 import WntrModel.Lemmas.LinkRowsEval
+import WntrModel.Lemmas.LinkRowsNorm
 import WntrModel.Gen.RowsC02
 import WntrModel.Gen.UpdaterC02
 
@@ -22,14 +23,39 @@ open Wntr.Aml Wntr.Rows Wntr.Gen
 
 /-! ### 1. the tie -/
 
-/-- every generated row is the parametric row of its link (kind, status, isolation, start / end nodes looked up BY NAME,
-pump coefficients, generated constants), for both Hazen-Williams approximations -/
+/-- every generated row is EQUIVALENT to the parametric row of its link (kind, status, isolation, start / end nodes looked up
+BY NAME, pump coefficients, generated constants), for both Hazen-Williams approximations.  Equivalent = equal as polynomials
+with rational coefficients over opaque atoms (leaves, `abs(f)**1.852`, `sign(f)`, `k**0.5`, …), conditional rows branch by
+branch (`rowEquiv`, sound by `rowEquiv_sound`): re-ordering or re-bracketing a row keeps this true, a sign, a constant, a
+branch bound, a leaf or a start/end swap does not. -/
 theorem gen_rows_are_linkRow :
-    RowsC02.Default.rows.all (linkRowOk RowsC02.hw RowsC02.pc RowsC02.lit RowsC02.Default.varNames
+    RowsC02.Default.rows.all (linkRowOkSem RowsC02.hw RowsC02.pc RowsC02.lit RowsC02.Default.varNames
       RowsC02.Default.paramNames .default) = true ∧
-    RowsC02.Piecewise.rows.all (linkRowOk RowsC02.hw RowsC02.pc RowsC02.lit RowsC02.Piecewise.varNames
+    RowsC02.Piecewise.rows.all (linkRowOkSem RowsC02.hw RowsC02.pc RowsC02.lit RowsC02.Piecewise.varNames
       RowsC02.Piecewise.paramNames .piecewise) = true := by
   constructor <;> decide +kernel
+
+/-- the semantic comparison is sensitive: flipping the sign of the minor-loss term, changing the exponent constant or exchanging
+`start_h` and `end_h` in the default Hazen-Williams row is NOT equivalent to it; re-ordering its terms is -/
+theorem rowEquiv_is_sensitive :
+    let L : Leaves := { f := .var 0, hs := .var 1, he := .var 2, k := .param 0, mkl := .param 1, setting := .param 2,
+                        elevS := .param 3, elevE := .param 4, tcvR := .param 5, power := .param 6 }
+    let row := hwApproxRow refHW refLit L
+    let f : Expr := .var 0
+    let sgn : Expr := .un .sign f
+    let fric : Expr := .bin .mul (.bin .mul sgn (.param 0)) (.bin .pow (.un .abs f) (.const refHW.hwExp))
+    let lin : Expr := .bin .mul (.bin .mul (.const refLit.eps) (.bin .pow (.param 0) (.const (1 / 2)))) f
+    let minor : Expr := .bin .mul (.bin .mul sgn (.param 1)) (.bin .mul f f)
+    -- start_h − end_h − friction − linear − minor, fully re-ordered and with f*f for f**2
+    rowEquiv row (.bin .sub (.bin .sub (.bin .sub (.bin .sub (.var 1) (.var 2)) minor) lin) fric) = true ∧
+    -- minor loss without sign(f)
+    rowEquiv row (.bin .sub (.bin .sub (.bin .sub (.bin .sub (.var 1) (.var 2)) (.bin .mul (.param 1) (.bin .mul f f))) lin) fric) = false ∧
+    -- start / end exchanged
+    rowEquiv row (.bin .sub (.bin .sub (.bin .sub (.bin .sub (.var 2) (.var 1)) minor) lin) fric) = false ∧
+    -- exponent 1.85
+    rowEquiv row (.bin .sub (.bin .sub (.bin .sub (.bin .sub (.var 1) (.var 2)) minor) lin)
+      (.bin .mul (.bin .mul sgn (.param 0)) (.bin .pow (.un .abs f) (.const (185 / 100))))) = false := by
+  decide +kernel
 
 /-- the zoo contains every (kind, status) pair the simulator can produce, an isolated link, links from / into a tank and a
 reservoir, and head pumps with `C = 2`, `C = 1`, `C > 1` (non-integer) and `C < 1` -/
@@ -55,31 +81,31 @@ def swappedSpec (vars params : List String) (approx : Approx) (r : ZLinkRow) : O
 
 /-- **start / end orientation**: in every generated row `start_h` / `end_h` (and the elevation an active PRV / PSV uses) are
 the leaves of the link's START / END node as the link object names them — and the check is sensitive: the row built with the
-two nodes exchanged is a different expression for every row that mentions a head -/
+two nodes exchanged is NOT equivalent (`rowEquiv`) for every row that mentions a head -/
 theorem start_end_orientation :
     (RowsC02.Default.rows.all fun r =>
       r.status == .closed || r.isolated || (r.kind == .fcv && r.status == .active) ||
       (match swappedSpec RowsC02.Default.varNames RowsC02.Default.paramNames .default r with
-       | some s => r.expr != linkRow RowsC02.hw RowsC02.pc RowsC02.lit s
+       | some s => !rowEquiv r.expr (linkRow RowsC02.hw RowsC02.pc RowsC02.lit s)
        | none => false)) = true ∧
     (RowsC02.Piecewise.rows.all fun r =>
       r.status == .closed || r.isolated || (r.kind == .fcv && r.status == .active) ||
       (match swappedSpec RowsC02.Piecewise.varNames RowsC02.Piecewise.paramNames .piecewise r with
-       | some s => r.expr != linkRow RowsC02.hw RowsC02.pc RowsC02.lit s
+       | some s => !rowEquiv r.expr (linkRow RowsC02.hw RowsC02.pc RowsC02.lit s)
        | none => false)) = true := by
   constructor <;> decide +kernel
 
 /-- soundness of the check: an accepted row evaluates like the parametric row, at every environment -/
 theorem linkRowOk_sound (env : Env ℝ) (hw : HWConsts) (pc : PumpConsts) (lit : RowLits) (vars params : List String)
-    (approx : Approx) (r : ZLinkRow) (h : linkRowOk hw pc lit vars params approx r = true) :
+    (approx : Approx) (r : ZLinkRow) (h : linkRowOkSem hw pc lit vars params approx r = true) :
     ∃ s, zooSpec vars params approx r = some s ∧ s.kind = r.kind ∧ s.status = r.status ∧ s.isolated = r.isolated ∧
       eval realOps env r.expr = eval realOps env (linkRow hw pc lit s) := by
-  unfold linkRowOk at h
+  unfold linkRowOkSem at h
   cases hz : zooSpec vars params approx r with
   | none => simp [hz] at h
   | some s =>
-    simp only [hz, decide_eq_true_eq] at h
-    refine ⟨s, rfl, ?_, ?_, ?_, by rw [h]⟩ <;> (simp only [zooSpec, Option.some.injEq] at hz; subst hz; rfl)
+    simp only [hz] at h
+    refine ⟨s, rfl, ?_, ?_, ?_, rowEquiv_sound env _ _ h⟩ <;> (simp only [zooSpec, Option.some.injEq] at hz; subst hz; rfl)
 
 /-! ### 2. closed (or isolated) links carry zero flow -/
 
